@@ -33,8 +33,8 @@ pub const GRID_SIZE: u64 = (GRID_TYPES * GRID_LENS * 4 * 2) as u64;
 
 fn parts(t: Tier) -> Vec<Part> {
     let n = match t {
-        Tier::Quick => 400_000,
-        Tier::Thorough => 10_000_000,
+        Tier::Quick => 1_200_000,
+        Tier::Thorough => 20_000_000,
     };
     vec![tape("wire", n, 900), enumerate("grid", GRID_SIZE), enumerate("short", 1 + 256 + 65536)]
 }
